@@ -255,6 +255,13 @@ func c14Check(c c14Case, rec *evid.Recorder) (fl *Fail) {
 			if ds, cc := debug.ToString(st), compiler.New().Compile(one).Code; ds != cc {
 				return failf("debug.ToString(statement) differs from compiling it alone\ndebug   %q\ncompact %q", ds, cc)
 			}
+			if es, ok := st.(*ast.ExpressionStatement); ok && es.Expression != nil {
+				// expression nodes: the string form is the compact form of the statement minus its terminator
+				e, whole := debug.ToString(es.Expression), debug.ToString(st)
+				if whole != e+";" && whole != "("+e+");" {
+					return failf("debug.ToString(expression) is not the compact form of the expression\nexpression %q\nstatement  %q", e, whole)
+				}
+			}
 		}
 	}
 	distinctSpecs := map[string]bool{}
